@@ -1,7 +1,7 @@
 (* C18_not_counted, global part: the data-flow invariant holds in every reachable state. *)
 From Coq Require Import ZArith NArith List Bool Lia ZifyBool ZifyN.
 From RecordUpdate Require Import RecordSet.
-From PSO Require Import Raft.Types Raft.Node Raft.Net Raft.Obs.
+From PSO Require Import Raft.Types Raft.Node Raft.Net.
 From PSO Require Import Raft.ProofsReadonlyFrames Raft.ProofsReadonlyA Raft.ProofsReadonlyB Raft.ProofsReadonlyD.
 Import ListNotations.
 Import RecordSetNotations.
